@@ -35,7 +35,8 @@ func init() {
 		Rule: "every case is non-trivial: one build of 16 384-66 100 small documents plus a small second build, merged (with and without deletions); distinct = distinct case JSON",
 		Gen: func(t *rapid.T, prop string) *Case {
 			sc := &SpecialCase{
-				N:       rapid.SampledFrom([]int{16384, 16385, 17000, 65535, 65536, 65537, 66100}).Draw(t, "n"),
+				// rapid favours the front of the list: the 16-bit boundary sizes come first
+				N:       rapid.SampledFrom([]int{66100, 65536, 65537, 65535, 16385, 16384, 17000}).Draw(t, "n"),
 				Deleted: rapid.SampledFrom([]int{0, 0, 7, 1000}).Draw(t, "deleted"),
 				Store:   rapid.IntRange(0, 2).Draw(t, "store"),
 			}
@@ -61,10 +62,13 @@ var storeNames = []string{StoreBuilt, StoreMem, StoreFile}
 
 func giantWorld(sc *SpecialCase) *WorldDef {
 	// small documents: _id (injected), a doc-value keyword, a shared term
+	// field "a": one term carried by every document (a completely full 65 536-
+	// document bitmap container once the segment is large enough)
+	all := model.Field{Name: "a", Terms: []model.Term{{T: model.Bytes("all"), N: 1}}}
 	tmpl := []model.Doc{
-		{Fields: []model.Field{{Name: "k", Terms: []model.Term{{T: model.Bytes("x"), N: 1}}}, {Name: "t", Terms: []model.Term{{T: model.Bytes("common"), N: 2}}, Store: true, Val: model.Bytes("v")}}},
-		{Fields: []model.Field{{Name: "k", Terms: []model.Term{{T: model.Bytes("y"), N: 1}}}}},
-		{Fields: []model.Field{{Name: "t", Terms: []model.Term{{T: model.Bytes("common"), N: 1}, {T: model.Bytes("rare"), N: 1}}}}},
+		{Fields: []model.Field{{Name: "k", Terms: []model.Term{{T: model.Bytes("x"), N: 1}}}, {Name: "t", Terms: []model.Term{{T: model.Bytes("common"), N: 2}}, Store: true, Val: model.Bytes("v")}, all}},
+		{Fields: []model.Field{all, {Name: "k", Terms: []model.Term{{T: model.Bytes("y"), N: 1}}}}},
+		{Fields: []model.Field{{Name: "t", Terms: []model.Term{{T: model.Bytes("common"), N: 1}, {T: model.Bytes("rare"), N: 1}}}, all}},
 	}
 	wd := &WorldDef{DV: []string{"k", model.IDField}}
 	wd.Segs = append(wd.Segs, SegDef{Batch: []Item{{Rep: &Rep{N: sc.N, Tmpl: tmpl}}}, Mode: 1025, Store: storeNames[sc.Store%3]})
@@ -119,6 +123,14 @@ func runGiantCase(c *Case, env *Env) *Result {
 				f = ff
 			} else if d := diffFVsExported(got.DV, ws.Exp().DV); d != "" {
 				f = mismatch("C07", "docvalues", "values", fmt.Sprintf("giant seg %d (%d docs): %s", ws.Idx, len(ws.Docs), d))
+			}
+		case "C08":
+			// dictionaries with their entry counts (postings are C01/C02's business)
+			got, ff := Observe("C08", ws.Seg, ObsOpts{SkipStored: true, SkipDV: true, SkipStats: true})
+			if ff != nil {
+				f = ff
+			} else if d := model.Diff(got, ws.Exp(), "stats", "stored", "dv"); d != "" {
+				f = mismatch("C08", "dictionary", "giant", fmt.Sprintf("giant seg %d (%d docs): %s", ws.Idx, len(ws.Docs), d))
 			}
 		case "C16":
 			f = checkStats(ws, ws.Seg, "giant")
